@@ -99,7 +99,41 @@ def run_c29(chk, F, tier):
     p = cfgutil.paths_avoiding(succ, 0, set(sy.returns()), cmp_blocks)
     chk.check(bool(cmp_blocks) and p is None, "R29c", "sync:exit-only-when-unchanged",
               "sync_reloaded_open_files can return without comparing the snapshot versions", sy.loc())
-    chk.explanation = "Must-precede / must-pass-through on the reload functions, held-lock analysis at the reload call."
+    # R29d: the snapshot version that the reconciliation loop compares must change whenever an open text changes
+    chk.rule("R29d", "every mutation of WorkspaceManager.open_file_texts is followed by a bump of open_file_state_version on every path")
+    WM = LS + "::context::workspace_manager::WorkspaceManager"
+    nmut = 0
+    for b in F.bodies.values():
+        if b.kind != "fn" or b.get("impl_self") is None or b.ty(b.get("impl_self"))[3] != WM:
+            continue
+        W, V = set(), set()
+        for bi, blk in enumerate(b.blocks):
+            if blk[0]:
+                continue
+            for st in blk[1]:
+                if st[0] != "a":
+                    continue
+                if st[2][0] == "ref" and st[2][1] == "m" and any(isinstance(e, list) and e[0] == "f" and e[2] == "open_file_texts" for e in st[2][2][1:]):
+                    W.add(bi)
+                if any(isinstance(e, list) and e[0] == "f" and e[2] == "open_file_state_version" for e in st[1][1:]):
+                    V.add(bi)
+        if not W:
+            continue
+        nmut += 1
+        succ = b.succ_map()
+        ok = True
+        for w in W:
+            if w in V:
+                continue
+            if cfgutil.paths_avoiding(succ, w, set(b.returns()), V) is not None:
+                ok = False
+        chk.check(ok, "R29d", "version-bump:" + b.id.split("::")[-1],
+                  "%s changes open_file_texts on a path that does not bump open_file_state_version: sync_reloaded_open_files "
+                  "compares versions to detect edits made during a reload, so such an edit is never re-applied and the analysis stays "
+                  "on the pre-reload text" % b.id.split("::")[-1], b.loc(),
+                  sample={"rule": "R29d", "fn": b.id.split("::")[-1], "verdict": "version bumped on every mutating path"})
+    chk.floor("mutators of open_file_texts", nmut, 2)
+    chk.explanation = "Must-precede / must-pass-through on the reload functions, held-lock analysis at the reload call, write pairing of open texts and snapshot version."
 
 
 def run_c30(chk, F, tier):
